@@ -780,5 +780,6 @@ def run(ctx):
     ctx.do(c16.r16_2)
     ctx.do(c19.r19_6_7)
     ctx.do(c04.r4_7)
+    ctx.do(c19.r19_4)  # framing state is reset per command
     for k, v in INFEASIBLE_RAISE.items():
         ctx.trust(f"frozen infeasible raise: {k[0]} {k[1]} - {v}")
